@@ -16,6 +16,7 @@ static char *slurp_text(const char *p) {
     Buf b = {0}; char t[4096]; size_t n; while ((n = fread(t, 1, sizeof t, f)) > 0) buf_put(&b, t, n);
     fclose(f); buf_put(&b, "", 1); return (char *)b.d;
 }
+extern void heap_gen_program(uint64_t pseed, Buf *src);
 static int cmp_src(const void *a, const void *b) { return strcmp(((const Src *)a)->name, ((const Src *)b)->name); }
 static void srcs_load(void) {
     if (nsrcs) return;
@@ -47,11 +48,16 @@ static void srcs_load(void) {
       for (int i = 0; i < 300; i += 7) buf_printf(&b, "    set acc (+ acc (f%d %d))\n", i, i);
       buf_printf(&b, "    (println (int_to_string acc))\n    return 0\n}\nshadow main { assert (== (main) 0) }\n"); buf_put(&b, "", 1);
       s = &srcs[nsrcs++]; memset(s, 0, sizeof *s); strcpy(s->name, "gen_big300"); s->text = (char *)b.d; }
+    /* typed random programs of the heap family's generator: structs, unions, tuples, closures, maps, nested arrays */
+    for (int k = 0; k < 16 && nsrcs < 150; k++) {
+        Buf b = {0}; heap_gen_program((uint64_t)k * 7919 + 3, &b); buf_put(&b, "", 1);
+        s = &srcs[nsrcs++]; memset(s, 0, sizeof *s); snprintf(s->name, sizeof s->name, "gen_h%02d", k); s->text = (char *)b.d;
+    }
     qsort(srcs, (size_t)nsrcs, sizeof(Src), cmp_src);
 }
 
 typedef struct Cfg {
-    int cwd, tmpdir, envnoise, pid, uid, junk, movere, pad, stackjunk, argv0, pathstyle, home;
+    int cwd, tmpdir, envnoise, pid, uid, junk, movere, pad, stackjunk, argv0, pathstyle, home, scribble;
     unsigned long epoch;
 } Cfg;
 typedef struct EPlan { char prog[48]; int tool; /* 0 nano_virt, 1 nanoc */ Cfg c; } EPlan;
@@ -73,23 +79,26 @@ static void plan_gen(EPlan *P, uint64_t seed, const RunOpts *o) {
     c->uid = (int)sim_rndn(70000); c->junk = sim_rndn(4) ? 1 + (int)sim_rndn(255) : 0; c->movere = (int)sim_rndn(2);
     c->pad = sim_rndn(2) ? (int)sim_rndn(500) : 0; c->stackjunk = (int)sim_rndn(256); c->argv0 = (int)sim_rndn(3);
     c->pathstyle = (int)sim_rndn(4); c->home = (int)sim_rndn(3); c->epoch = 1000000000ul + sim_rndn(1000000000u);
+    /* configuration 0 leaves the dead stack alone (what a returned callee left there stays, as on a real machine); three in
+     * four of the others overwrite it, so output that depends on the residue of an earlier call differs between the two */
+    c->scribble = sim_rndn(4) != 0;
 }
 static void plan_print(EPlan *P, uint64_t seed, Buf *b) {
     Cfg *c = &P->c;
     buf_printf(b, "family env\nseed %llu\nprog %s tool=%s\n", (unsigned long long)seed, P->prog, P->tool ? "nanoc" : "nano_virt");
-    buf_printf(b, "config cwd=%d tmpdir=%d envnoise=%d pid=%d uid=%d junk=%d move_realloc=%d pad_pm=%d stackjunk=%d argv0=%d pathstyle=%d home=%d epoch=%lu\n",
-               c->cwd, c->tmpdir, c->envnoise, c->pid, c->uid, c->junk, c->movere, c->pad, c->stackjunk, c->argv0, c->pathstyle, c->home, c->epoch);
+    buf_printf(b, "config cwd=%d tmpdir=%d envnoise=%d pid=%d uid=%d junk=%d move_realloc=%d pad_pm=%d stackjunk=%d argv0=%d pathstyle=%d home=%d epoch=%lu scribble=%d\n",
+               c->cwd, c->tmpdir, c->envnoise, c->pid, c->uid, c->junk, c->movere, c->pad, c->stackjunk, c->argv0, c->pathstyle, c->home, c->epoch, c->scribble);
 }
 static bool plan_parse(EPlan *P, uint64_t *seed, const char *path) {
     FILE *f = __real_fopen(path, "r"); if (!f) return false;
-    memset(P, 0, sizeof *P); default_knobs(); K.max_blocks = 3000000000ull; cfg_zero(&P->c);
+    memset(P, 0, sizeof *P); default_knobs(); K.max_blocks = 3000000000ull; cfg_zero(&P->c); P->c.scribble = 1;   /* plans written before the knob existed */
     char line[512];
     while (fgets(line, sizeof line, f)) {
         unsigned long long s; char a[48], t[16]; Cfg *c = &P->c;
         if (sscanf(line, "seed %llu", &s) == 1) *seed = s;
         else if (sscanf(line, "prog %47s tool=%15s", a, t) == 2) { snprintf(P->prog, sizeof P->prog, "%s", a); P->tool = strcmp(t, "nanoc") == 0; }
-        else sscanf(line, "config cwd=%d tmpdir=%d envnoise=%d pid=%d uid=%d junk=%d move_realloc=%d pad_pm=%d stackjunk=%d argv0=%d pathstyle=%d home=%d epoch=%lu",
-                    &c->cwd, &c->tmpdir, &c->envnoise, &c->pid, &c->uid, &c->junk, &c->movere, &c->pad, &c->stackjunk, &c->argv0, &c->pathstyle, &c->home, &c->epoch);
+        else sscanf(line, "config cwd=%d tmpdir=%d envnoise=%d pid=%d uid=%d junk=%d move_realloc=%d pad_pm=%d stackjunk=%d argv0=%d pathstyle=%d home=%d epoch=%lu scribble=%d",
+                    &c->cwd, &c->tmpdir, &c->envnoise, &c->pid, &c->uid, &c->junk, &c->movere, &c->pad, &c->stackjunk, &c->argv0, &c->pathstyle, &c->home, &c->epoch, &c->scribble);
     }
     fclose(f);
     return true;
@@ -164,7 +173,7 @@ static void compile_once(EPlan *P, Cfg *c, uint64_t seed, Outs *o) {
     if (P->tool == 0) { av[ac++] = "--emit-nvm"; av[ac++] = "-o"; av[ac++] = "/sim/out/prog.nvm"; }
     else { av[ac++] = "-o"; av[ac++] = "/sim/out/prog"; if (!s->multi) av[ac++] = "-S"; else av[ac++] = "-fshow-intermediate-code"; }
     av[ac] = NULL;
-    sim_stack_junk = c->stackjunk; sim_stack_scribble = c->stackjunk; sim_stack_shift = (size_t)(c->stackjunk * 977 + c->pid) % 60000;
+    sim_stack_junk = c->stackjunk; sim_stack_scribble = c->scribble ? c->stackjunk : -1; sim_stack_shift = (size_t)(c->stackjunk * 977 + c->pid) % 60000;
     SimProc *p = sim_spawn(P->tool ? "nanoc" : "nano_virt", P->tool ? "nanoc" : "nano_virt", ac, av, &o->out, &o->err, 0);
     snprintf(p->cwd, sizeof p->cwd, "%s", cwd);
     char kv[300];
